@@ -1,11 +1,818 @@
-//! C14 -- not built yet (stub so the crate layout is stable).
-use crate::engine::report::{Ctx, Report};
-use serde_json::Value;
+//! C14 -- the streaming base64 codec follows RFC 4648 and round-trips under any chunking.
+//!
+//! Encoder (`Base64Encoder`): closed exploration of the carry state (0, 1 or 2 pending
+//! bytes: 1 + 256 + 65 536 states) x every next byte, each transition executed on a real
+//! encoder reached through a canonical history, in a fresh and in a "stale buffer" context;
+//! all 2^24 three-byte groups (also followed by tails, so that every concrete content of the
+//! 3-byte buffer is exercised); every partition of short inputs into writes, <= 2-cut and
+//! all-singleton partitions for every length up to 200, empty writes, flushes and a sink that
+//! accepts one byte per call.
+//! Decoder (`Base64Decoder`): the encodings of all lengths 0..=200 through a reader that
+//! delivers the text in chunks (every composition of the text for short texts, cyclic
+//! schedules beyond) into destination buffers of many sizes; every group of four characters;
+//! texts whose length is not a multiple of four must end in an error; arbitrary bytes must
+//! not panic.
+//! Oracle: `model::b64` (RFC 4648 section 4, cross-checked with CPython at start-up).
+use crate::engine::catch;
+use crate::engine::report::{Ctx, Report, Samples, Tier, Violations};
+use crate::engine::util::{cuts_from_mask, esc, hex, partitions_upto_cuts, unhex};
+use crate::model::b64;
+use rayon::prelude::*;
+use serde_json::{json, Value};
+use std::collections::BTreeSet;
+use std::io::{Read, Write};
+use std::sync::atomic::{AtomicU64, Ordering};
+use std::sync::Mutex;
+use surf_n_term::decoder::Base64Decoder;
+use surf_n_term::encoder::Base64Encoder;
 
-pub fn run(_ctx: &Ctx) -> Result<Report, String> {
-    Err("C14: check not built yet".into())
+// ---------------------------------------------------------------------------------------
+// environment: sink and source with schedules
+// ---------------------------------------------------------------------------------------
+
+/// Sink that accepts at most `limit` bytes per `write` call.
+struct Sink {
+    out: Vec<u8>,
+    limit: usize,
 }
 
-pub fn replay(_w: &Value) -> Result<(bool, String), String> {
-    Err("C14: check not built yet".into())
+impl Write for Sink {
+    fn write(&mut self, buf: &[u8]) -> std::io::Result<usize> {
+        let n = buf.len().min(self.limit);
+        self.out.extend_from_slice(&buf[..n]);
+        Ok(n)
+    }
+    fn flush(&mut self) -> std::io::Result<()> {
+        Ok(())
+    }
+}
+
+/// Source that delivers `data` in chunks: a `read` returns what is left of the current
+/// chunk, limited by the caller's buffer; `Ok(0)` only at the end of the data. When the
+/// schedule is exhausted it starts over (`cyclic`) or delivers the rest in one chunk.
+struct ChunkReader<'a> {
+    data: &'a [u8],
+    pos: usize,
+    chunks: &'a [usize],
+    cyclic: bool,
+    next: usize,
+    left: usize,
+}
+
+impl<'a> ChunkReader<'a> {
+    fn new(data: &'a [u8], chunks: &'a [usize], cyclic: bool) -> Self {
+        Self { data, pos: 0, chunks, cyclic, next: 0, left: 0 }
+    }
+}
+
+impl Read for ChunkReader<'_> {
+    fn read(&mut self, buf: &mut [u8]) -> std::io::Result<usize> {
+        if buf.is_empty() || self.pos == self.data.len() {
+            return Ok(0);
+        }
+        let mut spins = 0;
+        while self.left == 0 {
+            if self.next < self.chunks.len() {
+                self.left = self.chunks[self.next];
+                self.next += 1;
+            } else if self.cyclic && spins == 0 && !self.chunks.is_empty() {
+                self.next = 0;
+                spins = 1;
+            } else {
+                self.left = usize::MAX;
+            }
+        }
+        let n = buf.len().min(self.left).min(self.data.len() - self.pos);
+        buf[..n].copy_from_slice(&self.data[self.pos..self.pos + n]);
+        self.pos += n;
+        self.left -= n;
+        Ok(n)
+    }
+}
+
+// ---------------------------------------------------------------------------------------
+// one execution of the real encoder / decoder
+// ---------------------------------------------------------------------------------------
+
+/// Write `pieces` with one `write_all` each (optionally `flush` after each), finish.
+fn encode_run(pieces: &[&[u8]], flush: bool, sink_limit: usize) -> Result<Vec<u8>, String> {
+    let mut enc = Base64Encoder::new(Sink { out: Vec::with_capacity(16), limit: sink_limit });
+    for p in pieces {
+        enc.write_all(p).map_err(|e| format!("write failed: {e}"))?;
+        if flush {
+            enc.flush().map_err(|e| format!("flush failed: {e}"))?;
+        }
+    }
+    Ok(enc.finish().map_err(|e| format!("finish failed: {e}"))?.out)
+}
+
+#[derive(Debug, Clone, PartialEq, Eq)]
+enum End {
+    Eof,
+    Error(String),
+}
+
+#[derive(Debug, Clone)]
+struct DecOut {
+    bytes: Vec<u8>,
+    end: End,
+    /// violations of the `Read` contract seen on the way
+    contract: Vec<(&'static str, String)>,
+}
+
+/// Read the decoder to the end with destination sizes `dsts` (cyclic).
+fn decode_run(text: &[u8], chunks: &[usize], cyclic: bool, dsts: &[usize]) -> DecOut {
+    let mut dec = Base64Decoder::new(ChunkReader::new(text, chunks, cyclic));
+    let cap = dsts.iter().copied().max().unwrap_or(1).max(1);
+    let mut buf = vec![0xAAu8; cap];
+    let mut out = DecOut { bytes: Vec::with_capacity(text.len()), end: End::Eof, contract: vec![] };
+    let max_iters = 4 * text.len() + 64;
+    let mut i = 0;
+    loop {
+        if i >= max_iters {
+            out.contract.push(("no-progress", format!("{max_iters} reads without reaching the end")));
+            return out;
+        }
+        let d = dsts[i % dsts.len()];
+        i += 1;
+        match dec.read(&mut buf[..d]) {
+            Ok(0) if d > 0 => break,
+            Ok(0) => continue,
+            Ok(n) if n > d => {
+                out.contract.push(("overlong", format!("read returned {n} for a buffer of {d}")));
+                return out;
+            }
+            Ok(n) => out.bytes.extend_from_slice(&buf[..n]),
+            Err(e) => {
+                out.end = End::Error(e.to_string());
+                return out;
+            }
+        }
+    }
+    // end of stream must be sticky
+    for _ in 0..2 {
+        match dec.read(&mut buf[..cap]) {
+            Ok(0) => {}
+            Ok(n) => {
+                out.contract.push(("read-after-eof", format!("read returned {n} bytes after it had reported the end")));
+                out.bytes.extend_from_slice(&buf[..n]);
+            }
+            Err(e) => out.contract.push(("read-after-eof", format!("read failed after the end: {e}"))),
+        }
+    }
+    out
+}
+
+#[derive(Debug, Clone, Copy, PartialEq, Eq)]
+enum Expect<'a> {
+    /// canonical encoding of these bytes
+    Bytes(&'a [u8]),
+    /// length not a multiple of four
+    Error,
+    /// anything but a panic
+    NoPanic,
+}
+
+/// Run + judge one decoder execution. Returns (kind, detail) list, empty = fine.
+fn decode_check(text: &[u8], chunks: &[usize], cyclic: bool, dsts: &[usize], expect: Expect) -> (Vec<(String, String)>, Option<DecOut>) {
+    match catch(|| decode_run(text, chunks, cyclic, dsts)) {
+        Err(p) => (vec![(p.key(), format!("panicked: {} ({}:{})", p.message, p.file, p.line))], None),
+        Ok(out) => {
+            let mut problems: Vec<(String, String)> = vec![];
+            match expect {
+                Expect::Bytes(data) => {
+                    match &out.end {
+                        End::Error(e) => problems.push((
+                            "error-on-valid".into(),
+                            format!("expected {} decoded bytes, decoder failed after {} with: {e}", data.len(), out.bytes.len()),
+                        )),
+                        End::Eof => {
+                            if out.bytes != data {
+                                let kind = if out.bytes.len() < data.len() && data.starts_with(&out.bytes) { "truncated" } else { "wrong-bytes" };
+                                problems.push((kind.into(), format!("expected {} got {}", hex(data), hex(&out.bytes))));
+                            }
+                        }
+                    }
+                    for (k, d) in &out.contract {
+                        problems.push((k.to_string(), d.clone()));
+                    }
+                }
+                Expect::Error => {
+                    if out.end == End::Eof {
+                        problems.push((
+                            "no-error-on-bad-length".into(),
+                            format!("text of {} characters decoded to {} bytes ({}) without an error", text.len(), out.bytes.len(), hex(&out.bytes)),
+                        ));
+                    }
+                }
+                Expect::NoPanic => {}
+            }
+            (problems, Some(out))
+        }
+    }
+}
+
+fn classify(text: &[u8]) -> (Option<Vec<u8>>, bool) {
+    // (canonical payload, bad length)
+    match b64::decode(text) {
+        Ok(d) if b64::encode(&d) == text => (Some(d), false),
+        _ => (None, text.len() % 4 != 0),
+    }
+}
+
+// ---------------------------------------------------------------------------------------
+// exploration
+// ---------------------------------------------------------------------------------------
+
+fn content(n: usize) -> Vec<u8> {
+    (0..n).map(|i| ((37 * i + 11) & 255) as u8).collect()
+}
+
+struct Counters {
+    enc_runs: AtomicU64,
+    dec_runs: AtomicU64,
+}
+
+fn enc_witness(pieces: &[&[u8]], flush: bool, limit: usize) -> Value {
+    json!({"op": "encode", "writes": pieces.iter().map(|p| hex(p)).collect::<Vec<_>>(), "flush": flush, "sink_limit": limit})
+}
+
+fn dec_witness(text: &[u8], chunks: &[usize], cyclic: bool, dsts: &[usize]) -> Value {
+    json!({"op": "decode", "text_hex": hex(text), "text": esc(text), "chunks": chunks, "cyclic": cyclic, "dst": dsts})
+}
+
+/// judge one encoder execution against the reference; None = fine
+fn encode_check(pieces: &[&[u8]], flush: bool, limit: usize) -> Option<(String, String)> {
+    let all: Vec<u8> = pieces.concat();
+    let expect = b64::encode(&all);
+    match catch(|| encode_run(pieces, flush, limit)) {
+        Err(p) => Some((p.key(), format!("panicked: {} ({}:{})", p.message, p.file, p.line))),
+        Ok(Err(e)) => Some(("io-error".into(), e)),
+        Ok(Ok(got)) => {
+            if got == expect {
+                None
+            } else {
+                Some((
+                    "wrong-output".into(),
+                    format!("expected {:?} got {:?}", String::from_utf8_lossy(&expect), String::from_utf8_lossy(&got)),
+                ))
+            }
+        }
+    }
+}
+
+const CYCLIC: &[&[usize]] = &[&[1], &[2], &[3], &[4], &[5], &[7], &[1, 4], &[4, 1], &[64], &[3, 1], &[1, 3], &[2, 2, 1]];
+const DSTS: &[&[usize]] = &[&[1], &[2], &[3], &[4], &[5], &[63], &[64], &[65], &[1000], &[0, 3], &[1, 64], &[2, 1000, 1]];
+
+pub fn run(ctx: &Ctx) -> Result<Report, String> {
+    // reference self-check
+    for (d, e) in [("", ""), ("f", "Zg=="), ("fo", "Zm8="), ("foo", "Zm9v"), ("foob", "Zm9vYg=="), ("fooba", "Zm9vYmE="), ("foobar", "Zm9vYmFy")] {
+        if b64::encode(d.as_bytes()) != e.as_bytes() || b64::decode(e.as_bytes()).as_deref() != Ok(d.as_bytes()) {
+            return Err(format!("reference codec fails RFC 4648 section 10 vector {d:?}"));
+        }
+    }
+    let py = b64::validate_against_cpython()?;
+
+    let viol = Violations::new();
+    let samples = Samples::new(ctx.seed);
+    let c = Counters { enc_runs: AtomicU64::new(0), dec_runs: AtomicU64::new(0) };
+    let outcomes: Mutex<BTreeSet<String>> = Mutex::new(BTreeSet::new());
+    let mut sizes = serde_json::Map::new();
+    let verbose = std::env::var_os("SNT_VERBOSE").is_some();
+    let lap = |what: &str| {
+        if verbose {
+            eprintln!("[c14] {:>8.2}s {what}", ctx.elapsed());
+        }
+    };
+
+    // ---- E1: closed graph over the carry state -------------------------------------------
+    // state index: 0 = empty, 1..=256 one byte, 257.. two bytes
+    let carry_of = |s: usize| -> Vec<u8> {
+        if s == 0 {
+            vec![]
+        } else if s <= 256 {
+            vec![(s - 1) as u8]
+        } else {
+            vec![((s - 257) >> 8) as u8, ((s - 257) & 255) as u8]
+        }
+    };
+    let n_states = 1 + 256 + 65536usize;
+    let bfs_transitions = AtomicU64::new(0);
+    let successors: Vec<std::sync::atomic::AtomicBool> = (0..n_states).map(|_| std::sync::atomic::AtomicBool::new(false)).collect();
+    successors[0].store(true, Ordering::Relaxed); // initial state
+    (0..n_states).into_par_iter().for_each(|s| {
+        let carry = carry_of(s);
+        let mut runs = 0u64;
+        for b in 0..=255u8 {
+            // reference transition
+            let mut m = b64::IncEncoder { carry: carry.clone() };
+            m.push(b);
+            let succ = match m.carry.len() {
+                0 => 0,
+                1 => 1 + m.carry[0] as usize,
+                _ => 257 + ((m.carry[0] as usize) << 8) + m.carry[1] as usize,
+            };
+            successors[succ].store(true, Ordering::Relaxed); // panics if the successor is not an enumerated state
+            // stale context: a complete group written before, differing from the new bytes in every bit
+            let stale = [!carry.first().copied().unwrap_or(b), !carry.get(1).copied().unwrap_or(b), !b];
+            for ctxt in 0..2 {
+                let one = [b];
+                let mut pieces: Vec<&[u8]> = vec![];
+                if ctxt == 1 {
+                    pieces.push(&stale);
+                }
+                pieces.push(&carry);
+                pieces.push(&one);
+                runs += 1;
+                if let Some((kind, detail)) = encode_check(&pieces, false, usize::MAX) {
+                    viol.add(
+                        format!("enc:carry-graph:{kind}"),
+                        format!("carry {} + byte {:02x} ({}): {detail}", hex(&carry), b, if ctxt == 1 { "after a full group" } else { "fresh encoder" }),
+                        enc_witness(&pieces, false, usize::MAX),
+                    );
+                }
+            }
+        }
+        bfs_transitions.fetch_add(256, Ordering::Relaxed);
+        c.enc_runs.fetch_add(runs, Ordering::Relaxed);
+    });
+    // finish() in every carry state (state observation)
+    (0..n_states).into_par_iter().for_each(|s| {
+        let carry = carry_of(s);
+        c.enc_runs.fetch_add(1, Ordering::Relaxed);
+        if let Some((kind, detail)) = encode_check(&[&carry], false, usize::MAX) {
+            viol.add(format!("enc:carry-graph:{kind}"), format!("finish with carry {}: {detail}", hex(&carry)), enc_witness(&[&carry], false, usize::MAX));
+        }
+    });
+    sizes.insert("encoder_carry_states".into(), json!(n_states));
+    sizes.insert("encoder_carry_transitions".into(), json!(bfs_transitions.load(Ordering::Relaxed)));
+    lap("encoder carry graph");
+
+    // ---- E2: every 3-byte group, alone and followed by tails (every content of the 3-byte buffer)
+    let groups_done = AtomicU64::new(0);
+    let tail_bytes: u32 = ctx.tier.pick(1, 256);
+    (0..(1u32 << 16)).into_par_iter().for_each(|hi| {
+        let mut runs = 0u64;
+        for lo in 0..=255u32 {
+            let g = [(hi >> 8) as u8, hi as u8, lo as u8];
+            let t1 = [!g[0]];
+            let t2 = [!g[1], g[2] ^ 0x0f];
+            let variants: [&[&[u8]]; 4] = [&[&g], &[&g[..1], &g[1..]], &[&g, &t1], &[&g, &t2]];
+            for pieces in variants {
+                runs += 1;
+                if let Some((kind, detail)) = encode_check(pieces, false, usize::MAX) {
+                    viol.add(format!("enc:groups:{kind}"), format!("group {} {:?}: {detail}", hex(&g), pieces.len()), enc_witness(pieces, false, usize::MAX));
+                }
+            }
+            if tail_bytes == 256 {
+                // thorough: every (stale group, one pending byte) content of the buffer
+                let head = b64::encode_group(&g);
+                let fast = catch(|| {
+                    let mut bad = None;
+                    for t in 0..=255u8 {
+                        let mut enc = Base64Encoder::new(Sink { out: Vec::with_capacity(8), limit: usize::MAX });
+                        let ok = enc.write_all(&g).is_ok() && enc.write_all(&[t]).is_ok();
+                        let got = enc.finish().map(|s| s.out).unwrap_or_default();
+                        if !ok || got[..got.len().min(4)] != head || got.get(4..) != Some(&b64::encode_group(&[t])[..]) {
+                            bad = Some(t);
+                            break;
+                        }
+                    }
+                    bad
+                });
+                runs += 256;
+                if !matches!(fast, Ok(None)) {
+                    // slow path: find and report the exact case
+                    for t in 0..=255u8 {
+                        let tt = [t];
+                        if let Some((kind, detail)) = encode_check(&[&g, &tt], false, usize::MAX) {
+                            viol.add(format!("enc:groups:{kind}"), format!("group {} then {:02x}: {detail}", hex(&g), t), enc_witness(&[&g, &tt], false, usize::MAX));
+                        }
+                    }
+                }
+            }
+        }
+        groups_done.fetch_add(256, Ordering::Relaxed);
+        c.enc_runs.fetch_add(runs, Ordering::Relaxed);
+    });
+    sizes.insert("encoder_groups".into(), json!(groups_done.load(Ordering::Relaxed)));
+    sizes.insert("encoder_group_tail_variants".into(), json!(if tail_bytes == 256 { 4 + 256 } else { 4 }));
+    lap("encoder groups");
+
+    // ---- E3: partitions into writes -------------------------------------------------------
+    let full_part_len: usize = ctx.tier.pick(12, 18);
+    let partitions_run = AtomicU64::new(0);
+    // (a) all 2^(n-1) partitions
+    for n in 0..=full_part_len {
+        let data = content(n);
+        let masks: u64 = if n == 0 { 1 } else { 1 << (n - 1) };
+        (0..masks).into_par_iter().for_each(|mask| {
+            let parts = cuts_from_mask(n, mask);
+            let pieces = crate::engine::util::split_by(&data, &parts);
+            let variants: &[(bool, usize)] = if n <= 10 { &[(false, usize::MAX), (true, usize::MAX), (false, 1)] } else { &[(false, usize::MAX)] };
+            for (flush, limit) in variants {
+                partitions_run.fetch_add(1, Ordering::Relaxed);
+                if let Some((kind, detail)) = encode_check(&pieces, *flush, *limit) {
+                    viol.add(format!("enc:partitions:{kind}"), format!("{n} bytes written as {:?}: {detail}", parts), enc_witness(&pieces, *flush, *limit));
+                }
+            }
+            // one empty write inserted at every position, and everywhere
+            if n <= 8 {
+                for at in 0..=pieces.len() + 1 {
+                    let mut p2: Vec<&[u8]> = pieces.clone();
+                    if at <= pieces.len() {
+                        p2.insert(at, &[]);
+                    } else {
+                        p2 = vec![&[]];
+                        for p in &pieces {
+                            p2.push(p);
+                            p2.push(&[]);
+                        }
+                    }
+                    partitions_run.fetch_add(1, Ordering::Relaxed);
+                    if let Some((kind, detail)) = encode_check(&p2, false, usize::MAX) {
+                        viol.add(format!("enc:partitions:{kind}"), format!("{n} bytes written as {:?} with empty writes: {detail}", parts), enc_witness(&p2, false, usize::MAX));
+                    }
+                }
+            }
+        });
+    }
+    // (b) <= 2 cuts and all singletons for every length up to 200
+    (0..=200usize).into_par_iter().for_each(|n| {
+        let data = content(n);
+        let mut parts_list = partitions_upto_cuts(n, 2);
+        parts_list.push(vec![1; n]);
+        for parts in &parts_list {
+            let pieces = crate::engine::util::split_by(&data, parts);
+            partitions_run.fetch_add(1, Ordering::Relaxed);
+            if let Some((kind, detail)) = encode_check(&pieces, false, usize::MAX) {
+                viol.add(format!("enc:partitions:{kind}"), format!("{n} bytes written as {:?}: {detail}", parts), enc_witness(&pieces, false, usize::MAX));
+            }
+        }
+    });
+    c.enc_runs.fetch_add(partitions_run.load(Ordering::Relaxed), Ordering::Relaxed);
+    sizes.insert("encoder_write_partitions".into(), json!(partitions_run.load(Ordering::Relaxed)));
+    sizes.insert("encoder_all_partitions_up_to_len".into(), json!(full_part_len));
+    lap("encoder partitions");
+
+    // ---- D1: valid encodings, cyclic schedules x destination sizes -------------------------
+    let d1 = AtomicU64::new(0);
+    (0..=200usize).into_par_iter().for_each(|n| {
+        let data = content(n);
+        let text = b64::encode(&data);
+        for chunks in CYCLIC {
+            for dsts in DSTS {
+                d1.fetch_add(1, Ordering::Relaxed);
+                let (problems, _) = decode_check(&text, chunks, true, dsts, Expect::Bytes(&data));
+                for (kind, detail) in problems {
+                    viol.add(
+                        format!("dec:valid-cyclic:{kind}"),
+                        format!("{n} bytes, reader chunks {:?} (cyclic), destination {:?}: {detail}", chunks, dsts),
+                        dec_witness(&text, chunks, true, dsts),
+                    );
+                }
+            }
+        }
+        // round trip through the real encoder (one byte per write) and the real decoder (one byte per read)
+        let singles: Vec<&[u8]> = data.chunks(1).collect();
+        if let Ok(Ok(real_text)) = catch(|| encode_run(&singles, false, usize::MAX)) {
+            d1.fetch_add(1, Ordering::Relaxed);
+            let (problems, _) = decode_check(&real_text, &[1], true, &[1], Expect::Bytes(&data));
+            for (kind, detail) in problems {
+                viol.add(format!("dec:roundtrip:{kind}"), format!("{n} bytes through real encoder and decoder one byte at a time: {detail}"), dec_witness(&real_text, &[1], true, &[1]));
+            }
+        }
+    });
+    sizes.insert("decoder_valid_cyclic_runs".into(), json!(d1.load(Ordering::Relaxed)));
+    lap("decoder cyclic");
+
+    // ---- D2: valid encodings, every composition of the text into reader chunks --------------
+    let comp_chars: usize = ctx.tier.pick(16, 24);
+    let d2 = AtomicU64::new(0);
+    let comp_dsts: &[&[usize]] = &[&[1], &[2], &[3], &[4], &[5], &[64], &[1000], &[0, 3]];
+    for n in 0..=(comp_chars / 4 * 3) {
+        let data = content(n);
+        let text = b64::encode(&data);
+        let l = text.len();
+        let masks: u64 = if l == 0 { 1 } else { 1 << (l - 1) };
+        (0..masks).into_par_iter().for_each(|mask| {
+            let chunks = cuts_from_mask(l, mask);
+            let dsts: &[&[usize]] = if l <= 16 { comp_dsts } else { &comp_dsts[..1] };
+            for dst in dsts {
+                d2.fetch_add(1, Ordering::Relaxed);
+                let (problems, _) = decode_check(&text, &chunks, false, dst, Expect::Bytes(&data));
+                for (kind, detail) in problems {
+                    viol.add(
+                        format!("dec:valid-compositions:{kind}"),
+                        format!("{n} bytes, reader chunks {:?}, destination {:?}: {detail}", chunks, dst),
+                        dec_witness(&text, &chunks, false, dst),
+                    );
+                }
+            }
+        });
+    }
+    sizes.insert("decoder_valid_composition_runs".into(), json!(d2.load(Ordering::Relaxed)));
+    sizes.insert("decoder_all_compositions_up_to_chars".into(), json!(comp_chars));
+    lap("decoder compositions");
+
+    // ---- D3: every group of four characters (= encodings of all 3-, 2- and 1-byte groups) ----
+    let d3 = AtomicU64::new(0);
+    let group_scheds: &[&[usize]] = ctx.tier.pick(&[&[64]], &[&[64], &[1], &[2], &[3]]);
+    (0..(1u32 << 16)).into_par_iter().for_each(|hi| {
+        let mut runs = 0u64;
+        for lo in 0..=255u32 {
+            let g = [(hi >> 8) as u8, hi as u8, lo as u8];
+            let text = b64::encode_group(&g);
+            for chunks in group_scheds {
+                runs += 1;
+                let (problems, _) = decode_check(&text, chunks, true, &[3], Expect::Bytes(&g));
+                for (kind, detail) in problems {
+                    viol.add(format!("dec:groups:{kind}"), format!("group {:?} chunks {:?}: {detail}", String::from_utf8_lossy(&text), chunks), dec_witness(&text, chunks, true, &[3]));
+                }
+            }
+        }
+        // tails: two-byte groups for this `hi`, one-byte groups once
+        let g2 = [(hi >> 8) as u8, hi as u8];
+        let mut tails: Vec<Vec<u8>> = vec![g2.to_vec()];
+        if hi < 256 {
+            tails.push(vec![hi as u8]);
+        }
+        for t in tails {
+            let text = b64::encode_group(&t);
+            for chunks in [&[64usize][..], &[1], &[3]] {
+                runs += 1;
+                let (problems, _) = decode_check(&text, chunks, true, &[2], Expect::Bytes(&t));
+                for (kind, detail) in problems {
+                    viol.add(format!("dec:groups:{kind}"), format!("padded group {:?} chunks {:?}: {detail}", String::from_utf8_lossy(&text), chunks), dec_witness(&text, chunks, true, &[2]));
+                }
+            }
+        }
+        d3.fetch_add(runs, Ordering::Relaxed);
+    });
+    sizes.insert("decoder_group_runs".into(), json!(d3.load(Ordering::Relaxed)));
+    lap("decoder groups");
+
+    // ---- D4: length not a multiple of four must be an error ---------------------------------
+    let d4 = AtomicU64::new(0);
+    let mal_dsts: &[&[usize]] = &[&[1], &[3], &[64], &[1000]];
+    (0..=200usize).into_par_iter().for_each(|n| {
+        let data = content(n);
+        let full = b64::encode(&data);
+        let mut texts: Vec<Vec<u8>> = vec![];
+        for cut in 1..=3 {
+            if full.len() >= cut {
+                texts.push(full[..full.len() - cut].to_vec());
+            }
+        }
+        for extra in [&b"A"[..], b"AB", b"ABC", b"=", b"A=", b"A=="] {
+            let mut t = full.clone();
+            t.extend_from_slice(extra);
+            texts.push(t);
+        }
+        for text in &texts {
+            debug_assert!(text.len() % 4 != 0);
+            for chunks in CYCLIC {
+                for dsts in mal_dsts {
+                    d4.fetch_add(1, Ordering::Relaxed);
+                    let (problems, out) = decode_check(text, chunks, true, dsts, Expect::Error);
+                    if let Some(o) = &out {
+                        if let End::Error(e) = &o.end {
+                            let mut g = outcomes.lock().unwrap();
+                            if g.len() < 16 {
+                                g.insert(format!("error: {e}"));
+                            }
+                        }
+                    }
+                    for (kind, detail) in problems {
+                        viol.add(
+                            format!("dec:bad-length:{kind}"),
+                            format!("text of {} characters, reader chunks {:?} (cyclic), destination {:?}: {detail}", text.len(), chunks, dsts),
+                            dec_witness(text, chunks, true, dsts),
+                        );
+                    }
+                }
+            }
+        }
+    });
+    // every composition for short bad lengths
+    for l in (1..=11usize).filter(|l| l % 4 != 0) {
+        let text: Vec<u8> = b64::encode(&content(9))[..l].to_vec();
+        (0..(1u64 << (l - 1))).into_par_iter().for_each(|mask| {
+            let chunks = cuts_from_mask(l, mask);
+            for dsts in mal_dsts {
+                d4.fetch_add(1, Ordering::Relaxed);
+                let (problems, _) = decode_check(&text, &chunks, false, dsts, Expect::Error);
+                for (kind, detail) in problems {
+                    viol.add(
+                        format!("dec:bad-length:{kind}"),
+                        format!("text of {l} characters, reader chunks {:?}, destination {:?}: {detail}", chunks, dsts),
+                        dec_witness(&text, &chunks, false, dsts),
+                    );
+                }
+            }
+        });
+    }
+    sizes.insert("decoder_bad_length_runs".into(), json!(d4.load(Ordering::Relaxed)));
+    lap("decoder bad length");
+
+    // ---- D5: arbitrary bytes never panic -----------------------------------------------------
+    let d5 = AtomicU64::new(0);
+    let d5_ok = AtomicU64::new(0);
+    let d5_err = AtomicU64::new(0);
+    let garbage_scheds: &[(&[usize], &[usize])] = &[(&[64], &[1000]), (&[1], &[1]), (&[3], &[2]), (&[2], &[1000])];
+    let garbage = |text: &[u8]| {
+        for (chunks, dsts) in garbage_scheds {
+            d5.fetch_add(1, Ordering::Relaxed);
+            let (problems, out) = decode_check(text, chunks, true, dsts, Expect::NoPanic);
+            match out.map(|o| o.end) {
+                Some(End::Eof) => {
+                    d5_ok.fetch_add(1, Ordering::Relaxed);
+                }
+                Some(End::Error(_)) => {
+                    d5_err.fetch_add(1, Ordering::Relaxed);
+                }
+                None => {}
+            }
+            for (kind, detail) in problems {
+                viol.add(format!("dec:garbage:{kind}"), format!("input {:?} chunks {:?}: {detail}", esc(text), chunks), dec_witness(text, chunks, true, dsts));
+            }
+        }
+    };
+    (0..=255u8).into_par_iter().for_each(|a| {
+        garbage(&[a]);
+        for b in 0..=255u8 {
+            garbage(&[a, b]);
+        }
+        // every byte value in every position of two groups
+        for pos in 0..8 {
+            let mut t = *b"QUJDREVG";
+            t[pos] = a;
+            garbage(&t);
+            let mut t = *b"QUJDRA==";
+            t[pos] = a;
+            garbage(&t);
+        }
+    });
+    let sym: [u8; 20] = [b'A', b'Z', b'a', b'z', b'0', b'9', b'+', b'/', b'=', 0x00, 0xff, b'-', b'_', b' ', b'\n', b'\r', 0x7f, 0x80, b'@', b'.'];
+    (0..20usize.pow(4)).into_par_iter().for_each(|i| {
+        let t = [sym[i % 20], sym[i / 20 % 20], sym[i / 400 % 20], sym[i / 8000 % 20]];
+        garbage(&t);
+    });
+    let sym8: [u8; 4] = [b'A', b'/', b'=', 0xff];
+    (0..4usize.pow(8)).into_par_iter().for_each(|i| {
+        let mut t = [0u8; 8];
+        let mut k = i;
+        for x in t.iter_mut() {
+            *x = sym8[k % 4];
+            k /= 4;
+        }
+        garbage(&t);
+    });
+    // sequences of groups that decode to 1, 2 or 3 bytes ("AA==", "AAA=", "AAAA", padding in the
+    // middle is garbage, not an encoding): k groups of one kind, then 1..=3 of another, which
+    // presents every fill level of the decoder's 64-byte buffer with every group size
+    let kinds: [&[u8; 4]; 3] = [b"QQ==", b"QUI=", b"QUJD"];
+    (0..=70usize).into_par_iter().for_each(|k| {
+        for x in kinds {
+            for y in kinds {
+                for m in 1..=3 {
+                    let mut t: Vec<u8> = Vec::with_capacity(4 * (k + m));
+                    for _ in 0..k {
+                        t.extend_from_slice(x);
+                    }
+                    for _ in 0..m {
+                        t.extend_from_slice(y);
+                    }
+                    garbage(&t);
+                    for dst in [&[1usize][..], &[63], &[64], &[65]] {
+                        d5.fetch_add(1, Ordering::Relaxed);
+                        let (problems, _) = decode_check(&t, &[64], true, dst, Expect::NoPanic);
+                        for (kind, detail) in problems {
+                            viol.add(format!("dec:garbage:{kind}"), format!("input {:?} destination {:?}: {detail}", esc(&t), dst), dec_witness(&t, &[64], true, dst));
+                        }
+                    }
+                }
+            }
+        }
+    });
+    sizes.insert("decoder_garbage_runs".into(), json!(d5.load(Ordering::Relaxed)));
+    sizes.insert("decoder_garbage_outcomes".into(), json!({"ok": d5_ok.load(Ordering::Relaxed), "error": d5_err.load(Ordering::Relaxed)}));
+    lap("decoder garbage");
+
+    c.dec_runs.fetch_add(
+        d1.load(Ordering::Relaxed) + d2.load(Ordering::Relaxed) + d3.load(Ordering::Relaxed) + d4.load(Ordering::Relaxed) + d5.load(Ordering::Relaxed),
+        Ordering::Relaxed,
+    );
+
+    // a few concrete cases for the evidence
+    for n in [1usize, 2, 49 + (ctx.seed % 3) as usize] {
+        let data = content(n);
+        let pieces: Vec<&[u8]> = data.chunks(2).collect();
+        let got = encode_run(&pieces, false, usize::MAX).unwrap_or_default();
+        samples.force(json!({"sub": "encode", "data": hex(&data), "writes_of": 2, "library": String::from_utf8_lossy(&got), "rfc4648": String::from_utf8_lossy(&b64::encode(&data))}));
+    }
+    for (n, chunks, dsts) in [(5usize, &[1usize][..], &[1usize][..]), (50 + (ctx.seed % 3) as usize, &[1, 4], &[5])] {
+        let data = content(n);
+        let text = b64::encode(&data);
+        let o = decode_run(&text, chunks, true, dsts);
+        samples.force(json!({"sub": "decode", "text": String::from_utf8_lossy(&text), "chunks": chunks, "dst": dsts, "library": hex(&o.bytes), "expected": hex(&data), "end": format!("{:?}", o.end)}));
+    }
+    for text in [&b"QUJDRA"[..], b"QUJDRA=", b"\xff=\x00A"] {
+        let o = decode_run(text, &[3], true, &[2]);
+        samples.force(json!({"sub": "decode-malformed", "text": esc(text), "chunks": [3], "dst": [2], "library": hex(&o.bytes), "end": format!("{:?}", o.end)}));
+    }
+
+    let succ = successors.iter().filter(|b| b.load(Ordering::Relaxed)).count();
+    let mut r = Report::new("model_checking");
+    r.set("states", n_states as u64)
+        .set("transitions", bfs_transitions.load(Ordering::Relaxed))
+        .set("traces_validated_against_impl", c.enc_runs.load(Ordering::Relaxed) + c.dec_runs.load(Ordering::Relaxed))
+        .set("encoder_executions", c.enc_runs.load(Ordering::Relaxed))
+        .set("decoder_executions", c.dec_runs.load(Ordering::Relaxed))
+        .set("exhaustive", true)
+        .set("capped", false)
+        .set("fixpoint", true)
+        .set("carry_graph_states_reached_as_successor_or_initial", succ)
+        .set("sub_spaces", Value::Object(sizes))
+        .set("lengths", "0..=200, content i -> 37*i+11 mod 256")
+        .set("reader_cyclic_schedules", json!(CYCLIC))
+        .set("destination_sizes", json!(DSTS))
+        .set("distinct_error_messages_on_bad_length", json!(outcomes.lock().unwrap().iter().cloned().collect::<Vec<_>>()))
+        .set("reference_validation", format!("RFC 4648 section 10 vectors; {py} strings compared with CPython base64"))
+        .set("samples", samples.into_vec())
+        .set("raw_violations", viol.raw_count());
+    r.assume("the encoder's behaviour depends only on the bytes written since the last complete group (carry) and possibly on the stale content of its 3-byte buffer; the graph over carry states is closed under that abstraction, the stale dimension is covered by the all-groups sweep (every stale group x tails) and the second context of every transition");
+    r.assume("a reader is modelled as a source that delivers the text in chunks and reports the end only at the end; errors and Interrupted from the underlying reader are outside the statement");
+    r.assume("for compositions the reader offers chunks larger than the decoder asks for as several reads, so distinct compositions may induce the same sequence of read results");
+    if ctx.tier == Tier::Thorough {
+        r.set("tier_note", "thorough: all partitions up to 18 bytes, all compositions up to 24 characters, every (group, one-byte tail) buffer content, groups under 1/2/3-byte readers");
+    }
+    r.violations = viol.into_vec();
+    Ok(r)
+}
+
+pub fn replay(w: &Value) -> Result<(bool, String), String> {
+    match w.get("op").and_then(|x| x.as_str()) {
+        Some("encode") => {
+            let writes: Vec<Vec<u8>> = w["writes"].as_array().ok_or("writes")?.iter().map(|x| unhex(x.as_str().unwrap_or(""))).collect();
+            let pieces: Vec<&[u8]> = writes.iter().map(|v| &v[..]).collect();
+            let flush = w["flush"].as_bool().unwrap_or(false);
+            let limit = w["sink_limit"].as_u64().map(|x| x as usize).unwrap_or(usize::MAX);
+            let all = pieces.concat();
+            let head = format!(
+                "encode {} bytes ({}) in writes {:?}, flush={flush}, sink accepts {} bytes per call; RFC 4648 text: {:?}",
+                all.len(),
+                hex(&all),
+                writes.iter().map(|v| v.len()).collect::<Vec<_>>(),
+                if limit == usize::MAX { "all".to_string() } else { limit.to_string() },
+                String::from_utf8_lossy(&b64::encode(&all))
+            );
+            Ok(match encode_check(&pieces, flush, limit) {
+                Some((kind, detail)) => (true, format!("{head}: {detail} [{kind}]")),
+                None => (false, format!("{head}: library agrees")),
+            })
+        }
+        Some("decode") => {
+            let text = unhex(w["text_hex"].as_str().ok_or("text_hex")?);
+            let list = |k: &str| -> Result<Vec<usize>, String> {
+                Ok(w[k].as_array().ok_or(k.to_string())?.iter().map(|x| x.as_u64().unwrap_or(1) as usize).collect())
+            };
+            let chunks = list("chunks")?;
+            let dsts = list("dst")?;
+            if dsts.is_empty() || dsts.iter().all(|d| *d == 0) {
+                return Err("destination sizes must contain a positive size".into());
+            }
+            let cyclic = w["cyclic"].as_bool().unwrap_or(false);
+            let (payload, bad_len) = classify(&text);
+            let expect = match (&payload, bad_len) {
+                (Some(d), _) => Expect::Bytes(d),
+                (None, true) => Expect::Error,
+                _ => Expect::NoPanic,
+            };
+            let head = format!(
+                "decode {:?} ({} characters) through a reader delivering chunks {:?}{} into buffers of {:?}; expected: {}",
+                esc(&text),
+                text.len(),
+                chunks,
+                if cyclic { " (cyclic)" } else { "" },
+                dsts,
+                match &expect {
+                    Expect::Bytes(d) => format!("bytes {}", hex(d)),
+                    Expect::Error => "an error (length is not a multiple of four)".into(),
+                    Expect::NoPanic => "no panic".into(),
+                }
+            );
+            let (problems, out) = decode_check(&text, &chunks, cyclic, &dsts, expect);
+            let observed = match &out {
+                Some(o) => format!("observed: bytes {} then {:?}", hex(&o.bytes), o.end),
+                None => "observed: panic".into(),
+            };
+            if problems.is_empty() {
+                Ok((false, format!("{head}; {observed}: library agrees")))
+            } else {
+                Ok((true, format!("{head}; {observed}: {}", problems.iter().map(|(k, d)| format!("{d} [{k}]")).collect::<Vec<_>>().join("; "))))
+            }
+        }
+        _ => Err("witness needs op = encode | decode".into()),
+    }
 }
